@@ -195,6 +195,57 @@ func scopes() map[string]*PropScope {
 			return &FnConfig{Classes: classSet(safetyClasses, []string{"init", "post", "inv-entry", "inv-pres"}), TrackInit: true}
 		},
 	})
+	decoderRoots := func(e *Engine) []*ssa.Function {
+		return e.selectFns(func(f *ssa.Function) bool {
+			pk := e.pkgName(f)
+			if pk != "layers" && pk != "gopacket" {
+				return false
+			}
+			return isDecodeFromBytes(f) || (isDecodeFuncSig(f) && f.Signature.Recv() == nil)
+		})
+	}
+	accessorNames := map[string]bool{"VerifyChecksum": true, "String": true, "GoString": true, "LinkFlow": true, "NetworkFlow": true, "TransportFlow": true,
+		"LayerContents": true, "LayerPayload": true, "Payload": true, "CanDecode": true, "NextLayerType": true, "LayerType": true, "Error": true,
+		"LinkLayer": true, "NetworkLayer": true, "TransportLayer": true, "ApplicationLayer": true, "ErrorLayer": true, "Layers": true, "Layer": true, "LayerClass": true,
+		"Dump": true, "Data": true, "Metadata": true, "VerifyChecksums": true}
+	accessorRoots := func(e *Engine) []*ssa.Function {
+		return e.selectFns(func(f *ssa.Function) bool {
+			pk := e.pkgName(f)
+			if pk != "layers" && pk != "gopacket" || f.Signature.Recv() == nil || !accessorNames[f.Name()] {
+				return false
+			}
+			k := e.fnKey(f)
+			return !strings.Contains(k, ".lazyPacket.") && !strings.Contains(k, "PacketSource")
+		})
+	}
+	add(&PropScope{ID: "C02", Closure: true, Technique: "contract-based deductive verification: generated frame contracts (input buffer never written, no stores to package state, read-only accessors), z3/cvc5",
+		Roots: func(e *Engine) []*ssa.Function { return append(decoderRoots(e), accessorRoots(e)...) },
+		Cfg: func(e *Engine, f *ssa.Function, root bool) *FnConfig {
+			if f.Signature.Recv() != nil && accessorNames[f.Name()] {
+				return &FnConfig{Classes: classSet([]string{"frame-ro", "frame-glob"}), ReadOnly: true, NoGlobal: true}
+			}
+			return &FnConfig{Classes: classSet([]string{"frame-in", "frame-glob"}), InputData: true, NoGlobal: true}
+		},
+		NotCovered: []string{"actual goroutine interleavings and -race runs: the schedule clause is argued from the read-only frames, not explored", "lazy packets (documented as not shareable)"},
+	})
+	add(&PropScope{ID: "C04", Closure: true, Technique: "contract-based deductive verification: capacity-independence obligations of every decoder (no re-slicing of the input beyond len) + NewPacket contract, z3/cvc5",
+		Roots: decoderRoots,
+		Cfg: func(e *Engine, f *ssa.Function, root bool) *FnConfig {
+			return &FnConfig{Classes: classSet([]string{"cap", "post", "frame"}), InputData: true}
+		},
+		NotCovered: []string{"pool interleavings: 'no two undisposed pooled packets share memory' rests on the assumed contract of sync.Pool"},
+	})
+	add(&PropScope{ID: "C03", Closure: true, Technique: "contract-based deductive verification: PacketBuilder typestate obligations on every decoder + write-once / append-only contracts on the packet builder, z3/cvc5",
+		Roots: func(e *Engine) []*ssa.Function {
+			return e.selectFns(func(f *ssa.Function) bool {
+				pk := e.pkgName(f)
+				return (pk == "layers" || pk == "gopacket") && isDecodeFuncSig(f)
+			})
+		},
+		Cfg: func(e *Engine, f *ssa.Function, root bool) *FnConfig {
+			return &FnConfig{Classes: classSet([]string{"typestate", "post", "frame", "inv-entry", "inv-pres"}), PB: true}
+		},
+	})
 	tagged := func(id, technique string, notCovered ...string) {
 		add(&PropScope{ID: id, Closure: false, Technique: technique, NotCovered: notCovered,
 			Roots: func(e *Engine) []*ssa.Function {
